@@ -57,7 +57,12 @@ THOROUGH = [("core3w", 3, 3, "core", "all", "core", "core", "core", '{"up"}', '{
 MC_THOROUGH = [(("all4", 3, 4, "all", "all", "core", "core", "core", '{"up", "down"}', '{"ok", "null", "bad"}'), ("async", "async")),
                (("conn5s", 2, 5, "conn", "ccc", "small", "conn", "conn", '{"up", "down"}', '{"ok"}'), ("sync", "refused")),      # the other way connect() may complete (not this machine's)
                (("conn5m", 2, 5, "conn", "ccc", "small", "conn", "conn", '{"up", "down"}', '{"ok"}'), ("async", "async")),
-               (("core5", 3, 5, "core", "ok", "small", "small", "core2", '{"up"}', '{"ok"}'), ("async", "async"))]
+               (("core5", 3, 5, "core", "ok", "small", "small", "core2", '{"up"}', '{"ok"}'), ("async", "async")),
+               (("arm6", 3, 6, "core", "att", "small", "small", "core", '{"up"}', '{"ok"}'), ("async", "async")),
+               (("fac7", 3, 7, "fac", "plain", "small", "small", "none", '{"up"}', '{"ok", "null", "bad"}'), ("async", "async")),
+               (("msg7", 3, 7, "msg", "plain", "core", "none", "none", '{"up"}', '{"ok"}'), ("async", "async")),
+               (("conn6", 2, 6, "conn", "plain", "none", "conn", "conn2", '{"up", "down"}', '{"ok"}'), ("async", "async")),
+               (("all4", 3, 4, "all", "all", "core", "core", "core", '{"up", "down"}', '{"ok", "null", "bad"}'), ("sync", "refused"))]
 
 # wrong design -> (clause it must violate, instance in which it shows)
 REACH = [("DetachTwiceOnCleanup", "DetachOnce", (2, 2, "msg", "plain", "none", "none", "none")),
@@ -96,7 +101,7 @@ def trace_cfg(name, N, modes):
     p = os.path.join(vlib.SPEC, FAM, name)
     with open(p, "w") as f:
         f.write('SPECIFICATION TraceSpec\nCONSTANTS\n  N = %d\n  MaxSteps = 100000000\n  MaxQ = 100000000\n  Ops <- Ops_all\n  Pers <- Pers_all\n  Dests = {"up", "down"}\n  MsgMenu <- Msg_none\n  ExtMenu <- Ext_none\n'
-                '  ArmMenu <- Arm_none\n  FacModes = {"ok", "null", "bad"}\n  UpMode = "%s"\n  DownMode = "%s"\n  Deviations = {}\n  RECORD = TRUE\nINVARIANTS NotAccepted %s\nCONSTRAINT Track\nPOSTCONDITION Report\n' %
+                '  ArmMenu <- Arm_none\n  FacModes = {"ok", "null", "bad"}\n  UpMode = "%s"\n  DownMode = "%s"\n  Deviations = {}\n  RECORD = TRUE\nINVARIANTS %s\n' %
                 (N, modes[0], modes[1], " ".join(CLAUSES)))
     return name
 
@@ -221,7 +226,7 @@ def stage(v, tier, seed):
         r = tlc("LifeTrace", name, workers=1, timeout=2400, heap="4g", env={"TRACE": tr})
         if r.error and not r.violated: raise vlib.MachineryError("LifeTrace %s: %s" % (tag, r.error))
         nlines = sum(1 for _ in open(tr))
-        return {"accepted": r.violated == "NotAccepted", "other": r.violated if r.violated not in (None, "NotAccepted") else None, "states": r.distinct, "lines": nlines, "trace": tr}
+        return {"accepted": r.violated is None and any(isinstance(p_, dict) and p_.get("accepted") for p_ in r.printed), "other": r.violated, "states": r.distinct, "lines": nlines, "trace": tr}
 
     def random_histories(nh, ns, N, shard, is_rerun=False):
         rep = W("rep_rand%d.ndjson" % shard); tr = W("trace_rand%d.ndjson" % shard)
